@@ -116,3 +116,12 @@ func (c *Conn) VerifCallStreams() []int {
 
 // VerifStreamsState renders the allocator's bitmap (IDGenerator.String()).
 func (c *Conn) VerifStreamsState() string { return c.streams.String() }
+
+// VerifRemaining returns the number of unread bytes left in the iterator's frame body
+// (-1 when the iterator has no frame).
+func (iter *Iter) VerifRemaining() int {
+	if iter.framer == nil {
+		return -1
+	}
+	return len(iter.framer.buf)
+}
